@@ -2,6 +2,7 @@ package ledger
 
 import (
 	"fmt"
+	"github.com/bartossh/Computantis/src/spice"
 	"math/big"
 	"sort"
 
@@ -434,4 +435,89 @@ func isChain(s *Snap) bool {
 		}
 	}
 	return true
+}
+
+// OverspendProbes: on a ledger with a single tip, every wallet in turn proposes a transfer of one smallest unit more
+// than it owns over all vertices of the ledger (each counted once, live and checkpointed), followed by proposals that
+// make the node judge that tip. The probe must never become confirmed: the snapshot oracle of C01 and the conservation
+// oracle of C02 watch. Every second wallet afterwards spends exactly what it owns, which must be confirmed.
+func (w *World) OverspendProbes(n *Node, d *Driver) {
+	if len(w.Trusted) > 0 {
+		return
+	}
+	for ui, u := range w.Users {
+		s, err := TakeSnap(n.Book)
+		if err != nil || len(s.Leaves) != 1 || n.BackgroundMayAct(s) {
+			w.Res.Count("overspend_probes_skipped_ledger_not_single_tipped", 1)
+			return
+		}
+		if u.Addr == w.GenIss || n.Tainted[u.Addr] {
+			continue
+		}
+		in, out := Flows(u.Addr, func(yield func(*accountant.Vertex)) {
+			seen := map[H]bool{}
+			for h, l := range s.Live {
+				seen[h] = true
+				yield(&l.V)
+			}
+			for h, v := range s.Stored {
+				if !seen[h] {
+					yield(v)
+				}
+			}
+		})
+		own := new(big.Int).Sub(in, out)
+		if own.Sign() < 0 || in.Cmp(MaxVal) > 0 {
+			continue
+		}
+		to := w.Users[(ui+1)%len(w.Users)]
+		probe := new(big.Int).Add(own, big.NewInt(1))
+		if probe.Cmp(MaxVal) > 0 {
+			continue
+		}
+		t := w.NewTrx(u, to.Addr, FromVal(probe), nil)
+		pv, perr := w.Propose(n, &t, fmt.Sprintf("overspend probe: %s owns %s and spends one unit more", u.Name, own))
+		if perr == nil && d != nil {
+			d.noteSealed(&pv)
+		}
+		for k := 0; k < 2; k++ {
+			m := w.NewTrx(w.Users[0], w.Users[1].Addr, spice.Melange{}, []byte("judge the tip"))
+			if mv, err := w.Propose(n, &m, "judge the tip"); err == nil && d != nil {
+				d.noteSealed(&mv)
+			}
+		}
+		w.Res.Count("overspend_probes", 1)
+		for p := range w.Report {
+			w.EvalFor(p, 1)
+			w.NontrivFor(p, fmt.Sprintf("overspend-probe/%s/accepted-as-tip=%v/checkpoint=%v", amountClass(FromVal(probe).Currency, FromVal(probe).SupplementaryCurrency), perr == nil, len(s.Stored) > 0))
+		}
+		if cur := n.Prev; perr == nil && cur != nil {
+			if _, still := cur.Live[pv.Hash]; still {
+				if !cur.Leaves[pv.Hash] {
+					// (the C01 oracle has reported the confirmation; said again in the words of the probe)
+					w.Violate("C02", "overdrawn/overspend-probe-confirmed", fmt.Sprintf("node %s: %s owns %s over all vertices of the ledger; its transfer of %s was built upon", n.Name, u.Name, own, probe))
+				}
+			}
+		}
+		if ui%2 == 1 && own.Sign() > 0 {
+			e := w.NewTrx(u, to.Addr, FromVal(own), nil)
+			ev, eerr := w.Propose(n, &e, fmt.Sprintf("%s spends exactly what it owns (%s)", u.Name, own))
+			if eerr == nil && d != nil {
+				d.noteSealed(&ev)
+			}
+			for k := 0; k < 2; k++ {
+				m := w.NewTrx(w.Users[0], w.Users[1].Addr, spice.Melange{}, []byte("judge the tip"))
+				if mv, err := w.Propose(n, &m, "judge the tip"); err == nil && d != nil {
+					d.noteSealed(&mv)
+				}
+			}
+			if cur := n.Prev; eerr == nil && cur != nil && !n.BackgroundMayAct(cur) {
+				if _, ok := cur.Vertex(ev.Hash); !ok {
+					w.Violate("C02", "covered-spend-dropped", fmt.Sprintf("node %s: %s owns %s over all vertices of the ledger; its transfer of exactly that amount was dropped as not covered", n.Name, u.Name, own))
+				}
+			}
+			w.Res.Count("exact_spend_probes", 1)
+		}
+	}
+	w.CheckConservation(n)
 }
